@@ -25,7 +25,7 @@ def read_char_escape(scan):
     if escape := scan.match(unicode_escape):
         codepoint = int(escape, 16)
         try: return chr(codepoint)
-        except ValueError:
+        except (ValueError, OverflowError):
             raise LexerError(
                 f'Invalid unicode codepoint: {codepoint:X}',
                 scan.cursor
@@ -112,7 +112,11 @@ def read_int_token(scan):
     elif lit := scan.match(bin_literal):
         return tokens.IntToken(int(lit, 2))
     elif lit := scan.match(dec_literal):
-        return tokens.IntToken(int(lit, 10))
+        # Unlike the power of two bases, Python limits the length of
+        # decimal strings it is willing to convert.
+        try: return tokens.IntToken(int(lit, 10))
+        except ValueError:
+            raise LexerError('Integer literal is too long', scan.cursor)
 
 ident_pattern = re.compile(r'[a-zA-Z_]\w*')
 keyword_tokens = {
